@@ -215,6 +215,19 @@ def run(ctx):
         from . import mgr_deep
         mgr_deep.report(ctx, rs, mgr_deep.mode_results(), "pysmt/formula.py", 10)
 
+    if ctx.want("R11"):
+        rs = ctx.rule("R11", "the substitution map belongs to the caller: after a call (failing inside a quantifier body, or succeeding) it holds what it held and a later call with the same map answers like one with a fresh copy")
+        from . import c05_deep
+        for cls, case, kind, detail in c05_deep.map_reuse_results():
+            nm = cls.split(".")[-1]
+            if kind == "ok":
+                rs.ok({"substituter": nm, "first call": case, "outcome": detail})
+            elif kind == "bad":
+                ctx.finding(rs, "map|%s|%s" % (nm, case), "%s, first call: %s: %s" % (nm, case, detail), "pysmt/substituter.py")
+            else:
+                rs.unrec("%s %s: %s" % (nm, case, detail))
+        ctx.floor(rs, 8)
+
     if ctx.want("R10"):
         rs = ctx.rule("R10", "real managers: importing a formula into an environment (normalize) gives the same copy whatever was imported before, also from another source whose node ids coincide")
         from . import mgr_deep
